@@ -516,6 +516,63 @@ func (g *Gen) BalPattern(rtl bool) *Tree {
 	return T("cat", kids...)
 }
 
+// SparsePattern: explicitly numbered groups that leave gaps (the Regexp then carries a number -> slot map), next to
+// unnamed and named ones, and a reference or conditional on one of them - the shape in which slot and number differ
+func (g *Gen) SparsePattern(rtl bool) *Tree {
+	g.ng, g.nms = 0, nil
+	g.bud = 3 + g.pick(g.c.MaxNodes)
+	piece := func() *Tree {
+		l := g.leaf()
+		if g.chance(0.3) {
+			l = Rep(l, g.pick(2), []int{1, 2, -1}[g.pick(3)], g.chance(0.3))
+		}
+		return l
+	}
+	nums := [][]string{{"2", "4"}, {"3", "7"}, {"2", "5", "9"}, {"4"}, {"1", "3"}, {"12", "2"}}[g.pick(6)]
+	var kids []*Tree
+	var names []string
+	if g.chance(0.4) {
+		kids = append(kids, Grp("", piece()))
+	}
+	for _, n := range nums {
+		body := piece()
+		var grp *Tree = Grp(n, body)
+		if g.chance(0.25) {
+			grp = Rep(grp, g.pick(2), 2, g.chance(0.3))
+		}
+		kids = append(kids, grp)
+		names = append(names, n)
+		if g.chance(0.3) {
+			kids = append(kids, piece())
+		}
+	}
+	if g.chance(0.4) {
+		nm := g.newName()
+		kids = append(kids, Grp(nm, piece()))
+		names = append(names, nm)
+	}
+	target := names[g.pick(len(names))]
+	switch g.pick(4) {
+	case 0, 1:
+		r := T("ref")
+		r.N.Nm = target
+		kids = append(kids, r)
+	case 2:
+		c := T("condref", piece(), piece())
+		c.N.Nm = target
+		kids = append(kids, c)
+	}
+	if g.chance(0.4) {
+		kids = append(kids, piece())
+	}
+	if rtl {
+		for i, j := 0, len(kids)-1; i < j; i, j = i+1, j-1 {
+			kids[i], kids[j] = kids[j], kids[i]
+		}
+	}
+	return T("cat", kids...)
+}
+
 // ---------------------------------------------------------------------------------------------
 // inputs
 
